@@ -934,6 +934,19 @@ overflow-checks = true
 [profile.dev.build-override]
 opt-level = 1
 debug = false
+
+# the optimised twin of the small corpus (engine_rt: what an optimiser makes of the unsafe blocks)
+[profile.release]
+debug = false
+incremental = false
+opt-level = 3
+debug-assertions = false
+overflow-checks = false
+codegen-units = 16
+
+[profile.release.build-override]
+opt-level = 1
+debug = false
 """
 
 
